@@ -140,4 +140,84 @@ def run_c03(ck):
                           k, procs[k], rej.get("matched"), a.get("sys"), rej.get("a"), rej.get("b")),
                       {"trace": keep, "first": rej, "driver": "memhier_det", "payload": payload})
     ck.note("memhier: %d stacks x %d processes, %d records each" % (out["stacks"], len(paths), out["records"]))
+    run_c03_control(ck)
+    return out
+
+
+def _phase_at(path, matched):
+    """What the requester was doing at record number `matched` of a control-history stream: the control command
+    that was sent and not yet acknowledged (flush / drain / enable), else traffic."""
+    import json
+    pending = None
+    with open(path) as f:
+        for i, line in enumerate(f):
+            if i > matched:
+                break
+            r = json.loads(line)
+            if r.get("e") == "stack":
+                pending = None
+            elif r.get("e") == "msg" and r.get("port") == "Agent.Ctl" and r.get("dir") == "send":
+                pending = r.get("cmd")
+            elif r.get("e") in ("ctl", "flush"):
+                pending = None
+    return pending or "traffic"
+
+
+def run_c03_control(ck):
+    """Control histories (the C17 scenarios: drain, filtered flushes with address lists naming several dirty lines, PID
+    filters, full flush, enable, more traffic) in 4 OS processes (GOMAXPROCS 1/4/16/2); inside every process each scenario
+    runs 3 times on fresh simulations (IDs reset). Observation stream: every handled event with its ID, every message
+    crossing the Bottom port of a cache and the requester's control port (ID, address), the requester's records (issue,
+    response, control acks, flush records with directory before/after), final payload hashes. Det.tla compares process
+    k with process 0, and process 0 with itself rotated by one repetition (equal iff the 3 repetitions are equal)."""
+    q = ck.tier == "quick"
+    binary = ck.binary("memhier")
+    d = core.scratch("c03mhf-")
+    payload = dict(seed=ck.seed, leaves=_leaves(ck), stacks=6 if q else 30, requests=60 if q else 120, filters=4 if q else 6, reps=3)
+    procs = [1, 4, 16, 2]
+    paths = [os.path.join(d, "ctl%d.ndjson" % k) for k in range(len(procs))]
+    rot = os.path.join(d, "ctl0rot.ndjson")
+
+    def one(k):
+        p = dict(payload, out=paths[k])
+        if k == 0:
+            p["out_rot"] = rot
+        return core.harness(binary, "memhier_det_flush", p, env={"GOMAXPROCS": str(procs[k])}, timeout=3000)
+    with cf.ThreadPoolExecutor(max_workers=len(procs)) as ex:
+        outs = list(ex.map(one, range(len(procs))))
+    out = outs[0]
+    if out["address_flushes_of_several_dirty_lines"] == 0:
+        raise core.Broken("memhier control histories: no address-filtered flush wrote back two or more dirty lines")
+    ck.cov["evaluations"] += out["records"] * (len(paths) + 1)
+    ck.cov["distinct_nontrivial"] += out["stacks"]
+    ck.cov["memhier_control_histories"] = dict(stacks=out["stacks"], flushes=out["flushes"], repetitions=out["reps"], processes=len(procs),
+                                               address_flushes_of_several_dirty_lines=out["address_flushes_of_several_dirty_lines"])
+    others = [(paths[k], "process %d (GOMAXPROCS %d)" % (k, procs[k])) for k in range(1, len(paths))] + [(rot, "a later repetition in process 0")]
+
+    def cmp(job):
+        return core.tlc(["ckpt"], "Det", "Det.cfg", workers=1, timeout=3000, env={"TRACE_A": paths[0], "TRACE_B": job[0]}, tags=("REJECTED",))
+    with cf.ThreadPoolExecutor(max_workers=len(others)) as ex:
+        rs = list(ex.map(cmp, others))
+    for n, ((path, who), r) in enumerate(zip(others, rs)):
+        ck.cov["states"] += r.distinct
+        ck.cov["transitions"] += r.generated
+        ck.tlc_runs.append(dict(module="Det", cfg="Det.cfg", **r.summary()))
+        ck.cov["traces_validated_against_impl"] += 1
+        if r.ok:
+            continue
+        rej = (r.tagged.get("REJECTED") or [{}])[0]
+        if not rej:
+            raise core.Broken("Det.tla reached no verdict on memhier control stream %s: %s" % (who, r.error))
+        keep = os.path.join(core.VERIF, "replays", "C03-memhier-control-seed%d-%d.ndjson" % (ck.seed, n))
+        os.makedirs(os.path.dirname(keep), exist_ok=True)
+        os.replace(path, keep)
+        a = rej.get("a") or {}
+        phase = _phase_at(paths[0], rej.get("matched") or 0)
+        ck.report({"kind": "divergence", "family": "memhier", "scenario": "control_history", "during": phase, "record": a.get("e", ""),
+                   "entity": a.get("entity", "")},
+                  "memhier control history: %s diverges from process 0 after %s records, during %s (stack %s, repetition %s): %s vs %s" % (
+                      who, rej.get("matched"), phase, a.get("sys"), a.get("rep"), str(rej.get("a"))[:400], str(rej.get("b"))[:400]),
+                  {"trace": keep, "first": rej, "driver": "memhier_det_flush", "payload": payload})
+    ck.note("memhier control histories: %d stacks x %d processes x %d repetitions, %d flushes (%d address-filtered over several dirty lines), "
+            "%d records each" % (out["stacks"], len(procs), out["reps"], out["flushes"], out["address_flushes_of_several_dirty_lines"], out["records"]))
     return out
